@@ -101,8 +101,9 @@ def make_body_a(info):
         escaped = None
         result = None
         try:
+            src = source()          # the caller keeps the generator, as in the documented  q = yp.query(...)  idiom
             try:
-                result = yp.evaluate_bounded(source(), proj, g('req'))
+                result = yp.evaluate_bounded(src, proj, g('req'))
             except Exception as e:
                 escaped = e
         finally:
@@ -156,7 +157,8 @@ def skeletons(nf):
 
 
 def make_body_b(sk, code, cap, info):
-    spec = make_spec(sk) + [('strike', 'int', '0 <= strike <= 4'), ('pat', 'int', '0 <= pat <= 2'), ('old', 'int', '50 <= old <= 100000')]
+    spec = make_spec(sk) + [('strike', 'int', '0 <= strike <= 4'), ('pat', 'int', '0 <= pat <= 2'), ('pkind', 'int', '0 <= pkind <= 2'),
+                            ('old', 'int', '50 <= old <= 100000')]
     ix = ch.index_of(spec)
     qname = sk['query'][0]
 
@@ -193,6 +195,10 @@ def make_body_b(sk, code, cap, info):
         def proj(x):
             pc[0] += 1
             if pat != 0 and pc[0] == pat:
+                if vals[ix['pkind']] == 1:
+                    raise RuntimeError('projection')
+                if vals[ix['pkind']] == 2:
+                    raise NotImplementedError('projection')       # a RuntimeError subclass
                 raise Private('projection')
             names = {}
             return tuple([show(a, names) for a in real_args])
